@@ -274,7 +274,7 @@ func c07Run(in string) string {
 
 var c07pkLens = []int{0, 1, 2, 3, 14, 15, 16, 30, 31, 32, 62, 63, 64, 65, 316, 317, 318, 319, 572, 573, 574,
 	1000, 65533, 65534, 65535}
-var c07valLens = []int{0, 1, 2, 31, 32, 33, 63, 64, 65, 300, 16383, 16384, 16385}
+var c07valLens = []int{0, 1, 2, 26, 27, 28, 29, 30, 31, 32, 33, 63, 64, 65, 300, 16383, 16384, 16385}
 
 func c07randNib(r *vu.RNG, l int) string {
 	if l == 0 {
@@ -305,7 +305,7 @@ func c07val(r *vu.RNG, small bool) []byte {
 	case r.Chance(1, 120):
 		l = c07valLens[r.Intn(len(c07valLens))]
 	default:
-		l = c07valLens[r.Intn(9)]
+		l = c07valLens[r.Intn(14)]
 	}
 	b := r.Bytes(l)
 	if r.Chance(1, 4) { // trailing / interior zeros
